@@ -75,7 +75,7 @@ def build_native():
     src = os.path.join(VERIF, 'native')
     if REPO != '/repo':
         # development aid (HV_REPO=<copy of the repository>): the helper crate is copied and pointed at that copy
-        src = os.path.join(scratch(), 'native'); shutil.rmtree(src, ignore_errors=True)
+        src = os.path.join(scratch(), f'native-{os.getpid()}'); shutil.rmtree(src, ignore_errors=True)
         shutil.copytree(os.path.join(VERIF, 'native'), src, ignore=shutil.ignore_patterns('target'))
         ct = open(os.path.join(src, 'Cargo.toml')).read().replace('path = "/repo"', f'path = "{REPO}"')
         open(os.path.join(src, 'Cargo.toml'), 'w').write(ct)
